@@ -96,7 +96,8 @@ const (
 	BCleanupSkipCleanupPanic
 	BCleanupSkipCleanupFatal
 	BCleanupRejectCleanupPanic
-	BCleanupPanicCleanupSkip // the other order: the skip is in flight when the older cleanup panics
+	BCleanupPanicCleanupSkip  // the other order: the skip is in flight when the older cleanup panics
+	BCleanupErrorfCleanupSkip // the newer cleanup skips (ends abnormally), the older one then fails non-fatally
 	numBeh
 )
 
@@ -108,7 +109,7 @@ var behNames = [...]string{"pass", "Skip", "Errorf", "Errorf;Skip", "Fail", "Fat
 	"Cleanup(Errorf);Skip", "Errorf;rejected-draw", "Cleanup(Skip)", "Error()", `Errorf("")`, "FailNow@D", "div-by-zero@A", "div-by-zero@B",
 	"Cleanup(Skip);Fatalf", "Cleanup(Skip);panic", "Cleanup(rejected-draw);Fatalf", "Cleanup(rejected-draw);panic", "Errorf;Fatalf@A",
 	"rcp:two-panicking-cleanups-above-a-plain-one", "rcp:Fatalf-cleanup-and-Skip-cleanup-above-plain-ones", "rcp:three-abnormal-cleanups-interleaved", "rcp:nil-cleanup-between-real-ones", "rcp:Custom-drawn-inside-a-cleanup",
-	"Cleanup(Skip)+Cleanup(panic)", "Cleanup(Skip)+Cleanup(Fatalf)", "Cleanup(rejected-draw)+Cleanup(panic)", "Cleanup(panic)+Cleanup(Skip)"}
+	"Cleanup(Skip)+Cleanup(panic)", "Cleanup(Skip)+Cleanup(Fatalf)", "Cleanup(rejected-draw)+Cleanup(panic)", "Cleanup(panic)+Cleanup(Skip)", "Cleanup(Errorf)+Cleanup(Skip)"}
 
 func (b Beh) String() string { return behNames[b] }
 
@@ -174,7 +175,7 @@ func (b Beh) Site() string {
 		return "CP"
 	case BCleanupFatal:
 		return "CF"
-	case BErrorf, BFail, BError, BErrorfSkip, BCleanupErrorf, BCleanupCleanupErrorf, BGoErrorf, BGoFail, BCleanupErrorfSkip, BErrorfReject, BErrorEmpty, BErrorfEmpty:
+	case BErrorf, BFail, BError, BErrorfSkip, BCleanupErrorf, BCleanupCleanupErrorf, BGoErrorf, BGoFail, BCleanupErrorfSkip, BErrorfReject, BErrorEmpty, BErrorfEmpty, BCleanupErrorfCleanupSkip:
 		return "nonfatal"
 	}
 	return ""
@@ -186,8 +187,9 @@ func (e customErr) Error() string { return fmt.Sprintf("custom error %d", e.code
 
 // the failure sites: distinct functions so that tracebacks differ
 //
-//go:noinline
 // the message contains a literal per cent sign and verbs: whoever reports it must treat it as data, not as a format
+//
+//go:noinline
 func siteA(t *rapid.T, msg string) { t.Fatalf("site A (100%%, %%d %%v): %s", msg) }
 
 //go:noinline
@@ -317,6 +319,9 @@ func Perform(t *rapid.T, b Beh, msg string) {
 	case BCleanupRejectCleanupPanic:
 		t.Cleanup(func() { rejectingGen.Draw(t, "never") })
 		t.Cleanup(func() { sitePanic("boom in cleanup " + msg) })
+	case BCleanupErrorfCleanupSkip:
+		t.Cleanup(func() { t.Errorf("nonfatal in cleanup: %s", msg) })
+		t.Cleanup(func() { t.Skip("skip from the newer cleanup " + msg) })
 	case BCleanupPanicCleanupSkip:
 		t.Cleanup(func() { sitePanic("boom in cleanup " + msg) })
 		t.Cleanup(func() { t.Skip("skip from the newer cleanup " + msg) })
